@@ -27,6 +27,13 @@ def peers():
     out.append(dict(kex=['curve25519-sha256', 'foo-kex@example.com', 'curve25519-sha256', ''], key=['ssh-ed25519', 'x' * 300], enc=['aes128-ctr', ' ', 'aes128-ctr', 'bar-cipher'], mac=['hmac-sha2-256']))
     out.append(dict(kex=['diffie-hellman-group1-sha1'], key=['ssh-rsa'], enc=[''], mac=['hmac-md5', 'hmac-sha2-512', 'hmac-md5']))
     out.append(dict(kex=['gss-gex-sha1-' + GSS, 'gss-group14-sha256-a+b/c=='], key=['ssh-dss'], enc=['none'], mac=['none']))
+    # repeated unknown names (within a list, across categories, gss names that normalise to the same wildcard)
+    out.append(dict(kex=['foo-kex@example.com', 'foo-kex@example.com', 'gss-foo-sha1-AAAA==', 'gss-foo-sha1-BBBB==', 'gss-foo-sha1-AAAA=='], key=['zz-alg', 'ssh-ed25519', 'zz-alg'],
+                    enc=['zz-alg', 'aes128-ctr', 'zz-alg'], mac=['zz-alg', 'hmac-sha2-256']))
+    # the two directions of a KEXINIT differ: the report shows the server-to-client lists (what output()/build_struct read), in text and JSON alike
+    out.append(dict(kex=['curve25519-sha256'], key=['ssh-ed25519'], enc=['aes128-ctr', 'aes256-ctr'], mac=['hmac-sha2-256', 'hmac-sha2-512'],
+                    cli_enc=['aes256-ctr', '3des-cbc'], cli_mac=['hmac-sha1']))
+    out.append(dict(kex=['curve25519-sha256'], key=['ssh-ed25519'], enc=['aes128-ctr'], mac=['hmac-sha2-256'], cli_enc=[''], cli_mac=['hmac-md5', 'hmac-sha2-256']))
     return out
 cases, failures = 0, []
 per = {}
@@ -50,7 +57,7 @@ for pi, p in enumerate(peers()):
         for mode in ('plain', 'batch', 'verbose', 'json'):
             cases += 1
             inp = {'peer': pi, 'role': role, 'mode': mode}
-            kex = H.make_kex(p['kex'], p['key'], p['enc'], p['mac'], comp=['none', 'zlib@openssh.com', 'zlib'])
+            kex = H.make_kex(p['kex'], p['key'], p['enc'], p['mac'], cli_enc=p.get('cli_enc'), cli_mac=p.get('cli_mac'), comp=['none', 'zlib@openssh.com', 'zlib'])
             status, text = H.run_output(kex=kex, client_host=('10.1.2.3' if role == 'client' else None), json_out=(mode == 'json'), batch=(mode == 'batch'), verbose=(mode == 'verbose'))
             if mode == 'json':
                 try:
@@ -149,7 +156,7 @@ for c in ('kex', 'key', 'enc', 'mac'):
             if l != t:
                 fail(inp, {'lookup': l}, {'text': t}, 'lookup')
 # the same names among neighbours, in other positions, audited as a client
-for pi, p in enumerate(peers()[:-3]):
+for pi, p in enumerate(peers()[:-6]):
     for role in ('server', 'client'):
         q = {c: list(reversed(p[c])) if role == 'client' else list(p[c]) for c in p}
         cases += 1
@@ -161,6 +168,26 @@ for pi, p in enumerate(peers()[:-3]):
                     fail({'peer': pi, 'role': role, 'category': c, 'name': n}, {'among neighbours': t}, {'alone': alone[(c, n)]}, 'neighbours')
                 if j != t:
                     fail({'peer': pi, 'role': role, 'category': c, 'name': n}, {'json': j}, {'text': t}, 'text-vs-json-gss' if n.startswith('gss-') else 'text-vs-json')
+# the position of a name in its list never matters, context-dependent notes (Terrapin) included: same peer, lists reversed / rotated
+def full(d):
+    return {lvl: sorted(v) for lvl, v in d.items() if v}
+ctx = [dict(kex=['curve25519-sha256'], key=['ssh-ed25519'], enc=['aes128-ctr', 'chacha20-poly1305@openssh.com', 'aes256-cbc', 'aes256-gcm@openssh.com'], mac=['hmac-sha2-256', 'hmac-sha2-256-etm@openssh.com', 'umac-128-etm@openssh.com']),
+       dict(kex=['curve25519-sha256', 'kex-strict-s-v00@openssh.com'], key=['ssh-ed25519'], enc=['aes128-ctr', 'chacha20-poly1305@openssh.com', '3des-cbc'], mac=['hmac-sha2-512-etm@openssh.com', 'hmac-sha1']),
+       dict(kex=['diffie-hellman-group14-sha256', 'curve25519-sha256'], key=['rsa-sha2-512', 'ssh-ed25519'], enc=['aes256-ctr', 'aes128-ctr', 'chacha20-poly1305@openssh.com'], mac=['hmac-sha2-256'])]
+for pi, p in enumerate(ctx + peers()[:4]):
+    ref_t, ref_j = render(p)
+    for how in ('reversed', 'rotated'):
+        cases += 1
+        q = {c: (list(reversed(p[c])) if how == 'reversed' else p[c][1:] + p[c][:1]) for c in p}
+        tf, doc = render(q)
+        for c in ('kex', 'key', 'enc', 'mac'):
+            for n in p[c]:
+                a, b = full(notes_of(ref_t, c, n)), full(notes_of(tf, c, n))
+                if a != b:
+                    fail({'order-peer': pi, 'how': how, 'category': c, 'name': n}, {how: b}, {'original order': a}, 'position-text')
+                a, b = full(json_notes(ref_j, c, n) or {}), full(json_notes(doc, c, n) or {})
+                if a != b:
+                    fail({'order-peer': pi, 'how': how, 'category': c, 'name': n}, {how: b}, {'original order': a}, 'position-json')
 # unknown names: flagged as unknown in every view, never presented as good
 for c, n in (('kex', 'foo-kex@example.com'), ('key', 'ssh-foo'), ('enc', 'bar-cipher'), ('mac', 'hmac-foo'), ('kex', 'gss-foo-' + GSS)):
     cases += 1
@@ -236,7 +263,7 @@ for pi, p in enumerate(sel):
             if sl != base_status:
                 fail(dict(inp, level=lvl, options=extra), sl, base_status, 'status-level')
             l0 = [H.ANSI.sub('', l) for l in t0.split('\n')]
-            ll = [H.ANSI.sub('', l) for l in tl.split('\n')]
+            ll = [H.ANSI.sub('', l) for l in tl.split('\n')] if tl else []      # (no output at all is zero lines, not one empty line)
             it = iter(l0)
             if not all(any(x == y for y in it) for x in ll):
                 fail(dict(inp, level=lvl, options=extra), [x for x in ll if x not in l0][:3], 'a subsequence of the lines at level info', 'level-adds')
@@ -245,11 +272,13 @@ for pi, p in enumerate(sel):
             # first-line logic: a hidden first line moves the name to the next shown line; compare (cat, name, level, note) sets
             if [x for x in fl if x not in findings_set(t0)]:
                 fail(dict(inp, level=lvl, options=extra), [x for x in fl if x not in findings_set(t0)][:3], 'no new findings', 'level-alters')
-# byte-identical repeated audits, including under different hash seeds
+# byte-identical repeated audits, including under different hash seeds (a peer whose report carries a note listing several algorithms included)
 cases += 1
-code = "import sys; sys.path.insert(0, %%r); import harness as H, hashlib; h = hashlib.sha256();\nfor p in %%r:\n    k = H.make_kex(p['kex'], p['key'], p['enc'], p['mac']); h.update(H.run_output(kex=k)[1].encode()); k = H.make_kex(p['kex'], p['key'], p['enc'], p['mac']); h.update(H.run_output(kex=k, json_out=True)[1].encode())\nprint(h.hexdigest())" %% (%(native)r, sel[:3])
+STRICT = dict(kex=['curve25519-sha256', 'kex-strict-s-v00@openssh.com'], key=['ssh-ed25519'], enc=['chacha20-poly1305@openssh.com', 'aes256-cbc', 'aes128-cbc', '3des-cbc', 'aes128-ctr'],
+              mac=['hmac-sha2-256-etm@openssh.com', 'hmac-sha2-512-etm@openssh.com', 'umac-128-etm@openssh.com', 'hmac-sha1-etm@openssh.com'])
+code = "import sys; sys.path.insert(0, %%r); import harness as H, hashlib; h = hashlib.sha256();\nfor p in %%r:\n    k = H.make_kex(p['kex'], p['key'], p['enc'], p['mac']); h.update(H.run_output(kex=k)[1].encode()); k = H.make_kex(p['kex'], p['key'], p['enc'], p['mac']); h.update(H.run_output(kex=k, json_out=True)[1].encode())\nprint(h.hexdigest())" %% (%(native)r, sel[:3] + [STRICT])
 outs = set()
-for seed in ('0', '1', '12345', 'random'):
+for seed in ('0', '1', '2', '3', '12345', '99', 'random'):
     env = dict(os.environ, PYTHONHASHSEED=seed)
     outs.add(subprocess.run([sys.executable, '-c', code], capture_output=True, text=True, env=env).stdout.strip())
 if len(outs) != 1 or '' in outs:
